@@ -14,6 +14,7 @@ pub trait QuadRS: AccessQuad + RankQuad + SelectQuad + WTSupport + From<QVector>
     fn collect_u64(v: &[u8]) -> Self;
     /// collect from an iterator without an exact size hint
     fn collect_filtered(v: &[u8]) -> Self;
+    fn collect_hinted(v: &[u8], kind: u8) -> Self;
     fn len_(&self) -> usize;
     fn is_empty_(&self) -> bool;
     fn iter_vec(&self) -> Vec<u8>;
@@ -36,6 +37,9 @@ macro_rules! impl_quadrs {
             }
             fn collect_filtered(v: &[u8]) -> Self {
                 v.iter().copied().filter(|_| true).collect()
+            }
+            fn collect_hinted(v: &[u8], kind: u8) -> Self {
+                crate::iterops::hinted(v.to_vec(), kind).collect()
             }
             fn len_(&self) -> usize {
                 self.len()
